@@ -41,6 +41,8 @@ var formatCorpus = []struct{ ext, text string }{
 	{"yaml", "b: [true, True, TRUE, false, False, FALSE]\nn: [null, Null, NULL, ~]\ne:\n"},
 	{"yaml", "s: ['true', \"null\", '1', \"1.5\", '', \" \", yes, no, on, off, y, n]\n"},
 	{"yaml", "s: [\"a\\tb\", \"q\\\"q\", 'it''s', \"\\u00e9\", \"line1\\nline2\", plain text here, 'x: y', \"#no comment\"]\n"},
+	// YAML: plain scalars that look like timestamps are strings for bkl, spelled as written
+	{"yaml", "when: 2022-02-05T10:30:00+02:00\nfrac: 2001-12-14T21:59:43.10Z\nzero: 2001-12-14T21:59:43+00:00\nl: [2002-12-14, 2001-12-14 21:59:43.10 -5]\n"},
 	// YAML: block scalars, folding, comments, multi-line flow
 	{"yaml", "lit: |\n  line1\n  line2\nfold: >\n  a\n  b\n\n  c\nstrip: |-\n  x\nkeep: |+\n  y\n\n"},
 	{"yaml", "# head\na: 1 # trailing\n# middle\nb:\n  # inner\n  c: 2\n"},
